@@ -141,10 +141,14 @@ def c02_3(c: Ctx) -> None:
             continue
         stn = q.stmt_of(call)
         facts = Facts(lambda a: a == f'{u.params()[0]}.parallel_handlers', cg=c.cg, unit=u)
+        spawns = [parent(x) for x in sites if isinstance(parent(x), ast.Call) and call_name(parent(x)) == 'create_task']
         for n in g.nodes_of(stn):
             p = q.guard_search(g, n, f'{u.params()[0]}.parallel_handlers', facts)
             if p is None:
                 c.ok(where(u, call), 'handler tasks are spawned only when self.parallel_handlers is true')
+            elif isinstance(parent(call), ast.Call) and call_name(parent(call)) == 'create_task' and serial_task_discipline(c, u, g, parent(call), spawns, f'{u.params()[0]}.parallel_handlers') is None:
+                n_inplace += 1
+                c.ok(where(u, call), 'on a bus without parallel_handlers each handler task is awaited to completion before the next one is created: handlers run one at a time, in iteration order')
             else:
                 c.fail(u, f'handler task spawned without parallel_handlers guard: {q.stmt_text(stn, 70)}', 'handlers run concurrently on a bus that did not ask for parallel_handlers', node=stn, witness=c.path(g.entry, p))
     if n_inplace == 0:
@@ -202,6 +206,15 @@ def c02_7(c: Ctx) -> None:
     from .c06 import c06_1
 
     c06_1(c)
+
+
+@ob('C02.8', 'CTX', 'the mutual exclusion per-bus order relies on is real for every bus: no task that processes events starts out believing it already holds the global lock (same obligation as '
+    'C06.3) — a run loop that inherits the flag from the handler that first used the bus takes the lock without acquiring it and releases a permit it never took: from then on two '
+    'holders are admitted, and another bus\'s in-handler await starts this bus\'s next event while its earlier handler is still running')
+def c02_8(c: Ctx) -> None:
+    from .c06 import c06_3
+
+    c06_3(c)
 
 
 OBLIGATIONS = ob.obs
